@@ -900,6 +900,24 @@ def run(ctx):
                 "== length, beyond, negative indices), remove_labels, concatenate, list_concatenate, same_scaling; model and "
                 "implementation compared after every operation on every live object; one case = one history, distinct by "
                 "(initial sets, operation list), non-trivial if it has at least 2 operations")
+    ctx.assumptions = [
+        "floating-point rounding is not modelled: the model computes in exact rationals on dyadic inputs, values are compared at 1e-9; "
+        "decision points that are ambiguous in floating point (a value within 1e-9 of a column extreme without being equal, a "
+        "near-constant column, factors equal up to rounding) are skipped and counted (histogram skipped_float_ambiguous_*); "
+        "magnitudes are kept in [1e-2, 5e2]",
+        "random choices of the implementation (shuffle permutation, remove_labels sample) and CPython set iteration orders "
+        "(move_boundaries_to_front, split_labels) are inputs of the model; the driver checks that they are a permutation / an "
+        "enumeration of the boundary rows / of the labels / the right number of distinct labelled positions",
+        "not modelled: copy(), split_one_vs_others, plotting, density estimation; numpy broadcasting of a length-1 factor array "
+        "or of an array onto 1-dimensional data; an ndarray factor with a zero component (revert gives inf/nan) is never reverted",
+        "the revert clause is evaluated by the oracle only when the snapshot taken before the first scaling has the minimum the "
+        "object remembers (get_original_min): for a derived subset without the minimum sample the property makes no promise",
+    ]
+    ctx.extra["validated_only"] = [
+        "restoration by revert_scaling when shuffle / move_boundaries_to_front / remove_labels happen between the scalings",
+        "remove_labels keeps the multiset of sample rows and the attributes",
+        "the Pool bookkeeping of object identity (which objects share a factor / label array) is tied by correspondence only",
+    ]
     drv = ctx.driver("drv_c18")
     n = 3000 if not thorough else 30000
     budget = 80 if not thorough else 540
